@@ -127,6 +127,16 @@ def check_public_key_encoding(blob: bytes) -> None:
     raise ScriptError("invalid public key blob", errno.PUBKEYTYPE)
 
 
+def check_public_key_flags(
+    pair_blob: bytes, verify_witness_pubkeytype: Any, verify_strict: bool
+) -> None:
+    if verify_strict:
+        check_public_key_encoding(pair_blob)
+    if verify_witness_pubkeytype:
+        if pair_blob[:1] not in (b"\2", b"\3") or len(pair_blob) != 33:
+            raise ScriptError("uncompressed key in witness", errno.WITNESS_PUBKEYTYPE)
+
+
 def checksig(
     vm: Any,
     sig_pair: tuple[int, int],
@@ -138,11 +148,7 @@ def checksig(
     verify_strict: bool,
 ) -> bool:
     generator = vm.generator_for_signature_type(signature_type)
-    if verify_strict:
-        check_public_key_encoding(pair_blob)
-    if verify_witness_pubkeytype:
-        if pair_blob[0] not in (2, 3) or len(pair_blob) != 33:
-            raise ScriptError("uncompressed key in witness", errno.WITNESS_PUBKEYTYPE)
+    check_public_key_flags(pair_blob, verify_witness_pubkeytype, verify_strict)
     try:
         public_pair = sec_to_public_pair(pair_blob, generator, strict=verify_strict)
     except (ValueError, EncodingError):
@@ -176,9 +182,14 @@ def checksigs(vm: Any, sig_blobs: list[bytes], public_pair_blobs: list[bytes]) -
                 sig_blob, flags, vm
             )
         except (der.UnexpectedDER, ValueError):
-            public_pair_blobs = []
+            sig_pair = None
         while len(sig_blobs_remaining) < len(public_pair_blobs):
             pair_blob = public_pair_blobs.pop()
+            if sig_pair is None:
+                # an empty or undecodable signature matches no key, but every key it is
+                # compared with still has to pass the encoding rules
+                check_public_key_flags(pair_blob, verify_witness_pubkeytype, verify_strict)
+                continue
             if checksig(
                 vm,
                 sig_pair,
